@@ -147,6 +147,7 @@ func runCmd(args []string) {
 			}
 		}
 		specOff := false
+		corrSeen := false
 		for i, toks := range steps {
 			if len(toks) > 0 && strings.HasPrefix(toks[0], "vset=") {
 				fmt.Sscanf(toks[0], "vset=%d", &p.vset)
@@ -188,7 +189,10 @@ func runCmd(args []string) {
 				continue
 			}
 			sum.Compared++
-			dCorr := p.compareRec(r, ms.m, false)
+			dCorr := ""
+			if !corrSeen {
+				dCorr = p.compareRec(r, ms.m, false)
+			}
 			dSpec := ""
 			if ms.hasS && !specOff {
 				sum.SpecChecked++
@@ -203,12 +207,19 @@ func runCmd(args []string) {
 				// the property itself is violated on this program; CorrOK tells whether the implementation
 				// at least does what the model (which mirrors known defects) predicts
 				sum.Mismatches++
-				enc.Encode(mismatch{Pid: pid, Program: line, Step: i, Kind: "spec", Detail: dSpec, Impl: r.String(), Model: ms.s, Tags: ptags, CorrOK: dCorr == ""})
+				enc.Encode(mismatch{Pid: pid, Program: line, Step: i, Kind: "spec", Detail: dSpec, Impl: r.String(), Model: ms.s, Tags: ptags, CorrOK: dCorr == "" && !corrSeen})
 				break
 			}
 			if dCorr != "" {
 				sum.Mismatches++
 				enc.Encode(mismatch{Pid: pid, Program: line, Step: i, Kind: "corr", Detail: dCorr, Impl: r.String(), Model: ms.m, Tags: ptags})
+				// model and implementation agree on the outcome of the step and differ in an observation only (flags,
+				// strides, raw window …): keep running the program against the specification alone — a later step may
+				// turn the divergence into a wrong element, which is the failing input the report wants
+				if !strings.HasPrefix(dCorr, "field r:") && !strings.Contains(dCorr, "ident") && !r.stop {
+					corrSeen = true
+					continue
+				}
 				break
 			}
 			if r.stop {
